@@ -20,7 +20,7 @@ class World(object):
         self.log = []
 
 
-def build_world(client, rng, flat=None, no_sharing=None):
+def build_world(client, rng, flat=None, no_sharing=None, rich=False):
     """Returns a World; every request must succeed (asserted)."""
     w = World()
 
@@ -68,9 +68,13 @@ def build_world(client, rng, flat=None, no_sharing=None):
         k = rng.choice([0, 1, 1, 2, 2, 3])
         if u in sharing:
             k = rng.choice([1, 1, 2])
+        if rich:
+            k = rng.choice([1, 2, 2, 3, 3])
         invs = {}
         for c in rng.sample(w.classes, min(k, len(w.classes))):
             total = rng.choice([1, 2, 3, 4, 4, 8, 8, 16])
+            if rich:
+                total = rng.choice([2, 4, 4, 8, 8, 16])
             f = {'total': total}
             if rng.random() < 0.3:
                 f['reserved'] = rng.choice([0, 1, total - 1, total])
